@@ -792,6 +792,18 @@ struct Runner {
 }
 
 // ------------------------------------------------------------------------------------------------
+// progress of the schedule being run, shared with the supervising (main) thread
+#[derive(Default)]
+struct Progress {
+    cfg: Option<Cfg>,
+    steps: Vec<Step>,
+    pending: Vec<String>,
+    last: Option<Value>,
+    recs: Vec<Value>,
+}
+static PROGRESS: Mutex<Progress> = Mutex::new(Progress { cfg: None, steps: Vec::new(), pending: Vec::new(), last: None, recs: Vec::new() });
+
+// ------------------------------------------------------------------------------------------------
 // real-time watchdog for the paused-clock settle
 struct Watch {
     deadline: Option<std::time::Instant>,
@@ -1577,23 +1589,35 @@ impl Runner {
     async fn finish(&mut self) {
         if self.stalled {
             let r = self.observe("stalled");
-            self.recs.push(r);
+            self.push_rec(r);
             return;
         }
         self.quiesce().await;
         if self.stalled {
             let r = self.observe("stalled");
-            self.recs.push(r);
+            self.push_rec(r);
             return;
         }
         let r = self.observe("quiesce");
-        self.recs.push(r);
+        self.push_rec(r);
         for i in 1..self.clis.len() {
             self.clis[i].drop_conn();
         }
         self.settle().await;
         self.settle().await;
         let r = self.observe(if self.stalled { "stalled" } else { "final" });
+        self.push_rec(r);
+    }
+
+    /// Records an observation; a copy goes to PROGRESS so that the supervising thread can finish the trace of
+    /// a schedule whose runtime thread got wedged inside the code under test.
+    fn push_rec(&mut self, r: Value) {
+        {
+            let mut p = PROGRESS.lock().unwrap();
+            p.last = Some(r.clone());
+            p.recs.push(r.clone());
+            p.steps = self.done_steps.clone();
+        }
         self.recs.push(r);
     }
 
@@ -1601,11 +1625,17 @@ impl Runner {
         if self.stalled {
             return;
         }
+        {
+            let mut p = PROGRESS.lock().unwrap();
+            p.steps = self.done_steps.clone();
+            p.steps.push(s.clone());
+            p.pending = self.batch.iter().map(|b| b.a.clone()).chain(std::iter::once(s.a.clone())).collect();
+        }
         if s.a == "Probe" && !self.batch.is_empty() {
             // probes only at settled points
             self.settle().await;
             let r = self.observe("step");
-            self.recs.push(r);
+            self.push_rec(r);
         }
         let applied = self.apply(s).await;
         let mut s2 = s.clone();
@@ -1616,11 +1646,11 @@ impl Runner {
         self.batch.push(s2);
         if s.a == "Probe" && applied {
             let r = self.observe("probe");
-            self.recs.push(r);
+            self.push_rec(r);
         } else if !s.ns || s.a == "Probe" {
             self.settle().await;
             let r = self.observe("step");
-            self.recs.push(r);
+            self.push_rec(r);
         }
     }
 
@@ -1724,6 +1754,12 @@ fn is_fault(a: &str, s: &Step) -> bool {
 async fn run_schedule(cfg: Cfg, tls: Option<&TlsMat>, paused: bool, scratch: &str, walk: Option<(&str, u64, usize)>) -> Vec<Value> {
     let mut r = Runner::new(cfg.clone(), tls, paused, scratch).await;
     r.settle().await;
+    {
+        // template observation (not recorded) for the supervising thread
+        let o = r.observe("init");
+        let mut p = PROGRESS.lock().unwrap();
+        *p = Progress { cfg: Some(cfg.clone()), last: Some(o), ..Default::default() };
+    }
     match walk {
         None => {
             for s in cfg.steps.iter() {
@@ -1732,7 +1768,7 @@ async fn run_schedule(cfg: Cfg, tls: Option<&TlsMat>, paused: bool, scratch: &st
             if !r.batch.is_empty() {
                 r.settle().await;
                 let o = r.observe("step");
-                r.recs.push(o);
+                r.push_rec(o);
             }
         }
         Some((prof, seed, len)) => {
@@ -1806,7 +1842,7 @@ async fn run_schedule(cfg: Cfg, tls: Option<&TlsMat>, paused: bool, scratch: &st
             if !r.batch.is_empty() {
                 r.settle().await;
                 let o = r.observe("step");
-                r.recs.push(o);
+                r.push_rec(o);
             }
         }
     }
@@ -1861,21 +1897,13 @@ fn main() {
     // silence panics of the code under test inside spawned tasks (they are recorded as data)
     std::panic::set_hook(Box::new(|_| {}));
     watchdog_thread();
-    let mut truncated = false;
-    let mut tr = TraceOut::create(&out);
-    let mut nsched = 0usize;
+    // job list
+    let mut jobs: Vec<(Cfg, Option<(String, u64, usize)>)> = vec![];
     if let Some(inp) = arg(&args, "--in") {
         let text = std::fs::read_to_string(&inp).expect("read --in");
         for line in text.lines().filter(|l| !l.trim().is_empty()) {
-            if STALLS.load(std::sync::atomic::Ordering::SeqCst) >= 4 {
-                truncated = true; // enough stalled schedules recorded; each one costs real time
-                break;
-            }
             let cfg: Cfg = serde_json::from_str(line).unwrap_or_else(|e| panic!("bad schedule {line}: {e}"));
-            for r in run_one(cfg, tls.as_ref(), &scratch, None) {
-                tr.emit(&r);
-            }
-            nsched += 1;
+            jobs.push((cfg, None));
         }
     }
     if args.iter().any(|a| a == "--walk") {
@@ -1891,10 +1919,6 @@ fn main() {
         for n in 0..num {
             let proto = protos[n % protos.len()].clone();
             let s: u64 = rng.gen();
-            if STALLS.load(std::sync::atomic::Ordering::SeqCst) >= 4 {
-                truncated = true;
-                break;
-            }
             let make_gated = acc == "duplex" && rng.gen_bool(0.15);
             let sig_on_make = if prof == "c07" && rng.gen_bool(0.15) { rng.gen_range(1..=2) } else { 0 };
             let cfg = Cfg {
@@ -1910,13 +1934,76 @@ fn main() {
                 src: "walk".into(),
                 exp: Value::Null,
             };
-            for r in run_one(cfg, tls.as_ref(), &scratch, Some((&prof, s, len))) {
-                tr.emit(&r);
+            jobs.push((cfg, Some((prof.clone(), s, len))));
+        }
+    }
+    // The schedules run on a worker thread; this thread supervises with REAL time: code under test that
+    // wedges its thread (a poll that never returns) must become a recorded observation, not a hung harness.
+    let limits: Vec<Duration> = jobs.iter().map(|(c, _)| if c.acc == "duplex" { Duration::from_secs(40) } else { Duration::from_secs(240) }).collect();
+    let (tx, rx) = std::sync::mpsc::channel::<Option<Vec<Value>>>();
+    let truncated = Arc::new(std::sync::atomic::AtomicBool::new(false));
+    let trunc2 = truncated.clone();
+    std::thread::spawn(move || {
+        for (cfg, walk) in jobs {
+            if STALLS.load(std::sync::atomic::Ordering::SeqCst) >= 4 {
+                trunc2.store(true, std::sync::atomic::Ordering::SeqCst); // enough stalled schedules; each costs real time
+                break;
             }
-            nsched += 1;
+            let w = walk.as_ref().map(|(p, s, l)| (p.as_str(), *s, *l));
+            let recs = run_one(cfg, tls.as_ref(), &scratch, w);
+            if tx.send(Some(recs)).is_err() {
+                return;
+            }
+        }
+        let _ = tx.send(None);
+    });
+    let mut tr = TraceOut::create(&out);
+    let mut nsched = 0usize;
+    let mut wedged = false;
+    loop {
+        let lim = limits.get(nsched).copied().unwrap_or(Duration::from_secs(40));
+        match rx.recv_timeout(lim) {
+            Ok(Some(recs)) => {
+                for r in recs {
+                    tr.emit(&r);
+                }
+                nsched += 1;
+            }
+            Ok(None) => break,
+            Err(std::sync::mpsc::RecvTimeoutError::Disconnected) => break,
+            Err(std::sync::mpsc::RecvTimeoutError::Timeout) => {
+                // the runtime thread is stuck inside a poll: finish this schedule's trace from what it published
+                let p = PROGRESS.lock().unwrap();
+                if let (Some(cfg), Some(last)) = (p.cfg.clone(), p.last.clone()) {
+                    let mut cfg2 = cfg;
+                    cfg2.steps = p.steps.clone();
+                    tr.emit(&json!({"e": "Reset", "id": cfg2.id, "proto": cfg2.proto, "tls": cfg2.tls, "acc": cfg2.acc,
+                        "makeGated": cfg2.make_gated, "nconn": cfg2.nconn, "nreq": cfg2.nreq, "src": cfg2.src, "wedged": true,
+                        "sched": serde_json::to_value(&cfg2).unwrap()}));
+                    for r in p.recs.iter() {
+                        tr.emit(r);
+                    }
+                    let mut o = last;
+                    o["kind"] = json!("stalled");
+                    o["stalled"] = json!(true);
+                    o["wedged"] = json!(true);
+                    o["acts"] = json!(p.pending.clone());
+                    o["batch"] = json!([]);
+                    o["bconns"] = json!([]);
+                    o["events"] = json!([]);
+                    tr.emit(&o);
+                    nsched += 1;
+                }
+                STALLS.fetch_add(1, std::sync::atomic::Ordering::SeqCst);
+                wedged = true;
+                break;
+            }
         }
     }
     let lines = tr.lines;
     tr.finish();
-    println!("{}", json!({"schedules": nsched, "records": lines, "stalls": STALLS.load(std::sync::atomic::Ordering::SeqCst), "truncated": truncated}));
+    println!("{}", json!({"schedules": nsched, "records": lines, "stalls": STALLS.load(std::sync::atomic::Ordering::SeqCst),
+        "truncated": wedged || truncated.load(std::sync::atomic::Ordering::SeqCst), "wedged": wedged}));
+    // a wedged worker thread cannot be joined
+    std::process::exit(0);
 }
